@@ -54,6 +54,17 @@ let err_txt = function
   | DuplicateUuidType -> "DuplicateUuidType" | InvalidUuidType -> "InvalidUuidType"
   | MissingUuidType -> "MissingUuidType"
 
+(* refbuild / refdelta: items in the order given; SetStaticsize's asserts are checked once per table *)
+let ritems_of s = List.map (fun (t, i, d) -> ((t, i), d)) (items_of s)
+let ref_res = function
+  | Ok l -> "ok:" ^ ints_txt l
+  | Err _ -> "model-err" | Panic _ -> "model-ub" | OutOfFuel -> "model-fuel"
+let ref_tables : (string, bool) Hashtbl.t = Hashtbl.create 4
+let ref_table_checked t =
+  match Hashtbl.find_opt ref_tables t with
+  | Some b -> b
+  | None -> let b = SnapRef.ref_sizes_ok (table_of t) in Hashtbl.add ref_tables t b; b
+
 exception Dead of string   (* a panic (or fuel exhaustion) ends the script *)
 
 let raw_items_txt l =
@@ -160,6 +171,14 @@ let run_script (cmds : string list) : string =
              d.(reg j) <- ok_or_dead (create_raw s.(reg a).sn_raw s.(reg bb).sn_raw); "ok"
            | "apply", [k; a; j] ->
              rd (snap_read_with_delta s.(reg a) d.(reg j)) (fun v -> s.(reg k) <- v) (fun () -> s.(reg k) <- snap_empty)
+           (* the Gallina model of the DDNet reference (Model/SnapRef.v) against the real C++ *)
+           | "refbuild", [items] -> ref_res (SnapRef.ref_builder_ints (ritems_of items))
+           | "refdelta", [ia; ib; t] ->
+             (match SnapRef.ref_builder_ints (ritems_of ia), SnapRef.ref_builder_ints (ritems_of ib) with
+              | Ok fa, Ok fb ->
+                if ref_table_checked t then ref_res (SnapRef.ref_create_delta (SnapRef.ref_sizes (table_of t)) fa fb)
+                else "model-abort"
+              | _ -> "model-abort")
            | _ -> failwith ("unknown command " ^ cmd) in
          emit name v
        with Dead what -> emit name what; raise (Dead what)) in
